@@ -237,7 +237,8 @@ impl RandState<'_> {
                 let sizes: Vec<_> = if self.0.config.depth.is_some_and(|d| d <= 0)
                     || self.0.config.size.is_some_and(|s| s <= 0)
                 {
-                    let min = choices.clone().min().unwrap_or(0);
+                    // alternatives of size 0 are uninhabited: they never count as the smallest one
+                    let min = choices.clone().filter(|d| *d > 0).min().unwrap_or(0);
                     choices.map(|d| if d > min { 0 } else { d }).collect()
                 } else {
                     choices.collect()
@@ -265,7 +266,7 @@ impl RandState<'_> {
                 )
             }
             TypeInner::Service(_) => IDLValue::Service(crate::Principal::arbitrary(u)?),
-            _ => unimplemented!(),
+            _ => return Err(Error::msg(format!("cannot generate a value of type {ty}"))),
         });
         self.0.pop_state(old_config, StateElem::Type(ty));
         res
@@ -298,7 +299,7 @@ fn size_helper(env: &TypeEnv, seen: &mut HashSet<String>, t: &Type) -> Option<us
     Some(match t.as_ref() {
         Var(id) => {
             if seen.insert(id.to_string()) {
-                let ty = env.rec_find_type(id).unwrap();
+                let ty = env.rec_find_type(id).ok()?;
                 let res = size_helper(env, seen, ty)?;
                 seen.remove(id);
                 res
@@ -403,6 +404,9 @@ where
             let max = T::max_value();
             let l = T::try_from(l).unwrap_or(min);
             let r = T::try_from(r).unwrap_or(max);
+            if l > r {
+                return Err(Error::msg("range is empty"));
+            }
             u.int_in_range(l..=r)?
         }
     })
@@ -417,7 +421,11 @@ fn arbitrary_variant(u: &mut Unstructured, weight: &[usize]) -> Result<usize> {
             Some(*sum)
         })
         .collect();
-    let selected = u.int_in_range(0..=prefix_sum[prefix_sum.len() - 1] - 1)?;
+    let total = match prefix_sum.last() {
+        Some(total) if *total > 0 => *total,
+        _ => return Err(Error::msg("empty variant")),
+    };
+    let selected = u.int_in_range(0..=total - 1)?;
     for (i, e) in prefix_sum.iter().enumerate() {
         if selected < *e {
             return Ok(i);
